@@ -142,6 +142,10 @@ def _is_indexing(e):
     return e.decl().name() in ("seq.nth", "seq.nth_i", "seq.nth_u")
 
 
+def _is_nth(e):
+    return e.decl().kind() == z3.Z3_OP_SEQ_NTH or e.decl().name() in ("seq.nth", "seq.nth_i", "seq.nth_u")
+
+
 def _fkey(e):
     d = e.decl()
     return (d.name(), d.arity(), d.kind())
@@ -176,6 +180,8 @@ def ground_index(exprs, cc=None):
                     idx.setdefault((fk, p, None), {})[c.get_id()] = c
                     if e.decl().kind() == z3.Z3_OP_SELECT:
                         idx.setdefault((fk, p, ("sort", ch[0].sort().get_id())), {})[c.get_id()] = c
+                    elif _is_nth(e) and p == 1:
+                        idx.setdefault(("nth", 1, ("anyseq",)), {})[c.get_id()] = c
                     if e.decl().kind() == z3.Z3_OP_SELECT and p == 1 and len(ch) == 2:
                         # select(store(A, a, b), t) also concerns A at t and at a (read-over-write)
                         base = ch[0]
@@ -236,7 +242,7 @@ def _triggers(body, nvars, cc=None):
                         rest = [o for q, o in enumerate(ch) if q != p]
                         # match only occurrences on the same (ground) array / sequence / co-arguments
                         others = tuple(rid(o) for o in rest) if not any(_has_var(o) for o in rest) else None
-                        bysort = ("sort", ch[0].sort().get_id()) if e.decl().kind() == z3.Z3_OP_SELECT else None
+                        bysort = ("sort", ch[0].sort().get_id()) if e.decl().kind() == z3.Z3_OP_SELECT else (("anyseq",) if (_is_nth(e) and p == 1) else None)
                         trig[vi].append((fk, p, vo[1], others, bysort))
         for c in e.children():
             rec(c, depth)
@@ -245,10 +251,20 @@ def _triggers(body, nvars, cc=None):
     return trig
 
 
-def instantiate_once(exprs, idx, consts, stats, cc=None):
+def instantiate_once(exprs, idx, consts, stats, cc=None, goal_ids=frozenset()):
     cache = {}
 
     def candidates(e):
+        for mode in ("wide", "exact", "goal"):
+            out = _cands(e, mode)
+            total = 1
+            for c in out:
+                total *= len(c)
+            if total <= MAX_INST_PER_Q:
+                return out
+        return out
+
+    def _cands(e, mode):
         n = e.num_vars()
         trig = _triggers(e.body(), n, cc)
         out = []
@@ -258,10 +274,10 @@ def instantiate_once(exprs, idx, consts, stats, cc=None):
             c = {}
             for fk, p, off, others, bysort in trig[j]:
                 pool = idx.get((fk, p, others), {})
-                if bysort is not None:
+                if bysort is not None and mode == "wide":
                     # few ground index terms on arrays of this sort: take them all (covers updates hidden behind
                     # case splits, e.g. select(store(vals, k, s), k2) where k == k2 is not known syntactically)
-                    wide = idx.get((fk, p, bysort), {})
+                    wide = idx.get((fk, p, bysort), {}) if bysort != ("anyseq",) else idx.get(("nth", 1, bysort), {})
                     if len(wide) <= SMALL_POOL:
                         pool = wide
                 for g in pool.values():
@@ -275,6 +291,8 @@ def instantiate_once(exprs, idx, consts, stats, cc=None):
                 if _sk(sort) == "Int":
                     z = z3.IntVal(0)
                     c[z.get_id()] = z
+            if mode == "goal":
+                c = {k: v for k, v in c.items() if k in goal_ids}
             out.append(list(c.values()))
         return out  # indexed by de Bruijn index
 
@@ -311,13 +329,22 @@ def instantiate_once(exprs, idx, consts, stats, cc=None):
     return [inst(e) for e in exprs]
 
 
-def make_qf(assertions, rounds=3):
+def make_qf(assertions, rounds=None, goal_index=None):
     """Returns (qf_assertions, stats).  If no quantifier occurs the input is returned unchanged."""
+    import os
+    rounds = rounds or int(os.environ.get("PYVC_ROUNDS", "3"))
     stats = {"quantified": False}
     if not any(_contains_quant(a) for a in assertions):
         return list(assertions), stats
     stats["quantified"] = True
-    sk = skolemize(assertions)
+    if goal_index is None:
+        sk = skolemize(assertions)
+        goal_ids = frozenset()
+    else:
+        skg = skolemize([assertions[goal_index]])
+        sk = skolemize([a for i, a in enumerate(assertions) if i != goal_index]) + skg
+        gi, gc = ground_index(skg)
+        goal_ids = frozenset(i for d in gi.values() for i in d) | frozenset(i for d in gc.values() for i in d)
     if not any(_contains_quant(a) for a in sk):
         return sk, stats
     out = sk
@@ -338,6 +365,6 @@ def make_qf(assertions, rounds=3):
             break
         prev_size = size
         stats["instances"] = 0
-        out = instantiate_once(sk, idx, consts, stats, cc)
+        out = instantiate_once(sk, idx, consts, stats, cc, goal_ids)
     stats["ground_terms"] = prev_size
     return out, stats
